@@ -61,7 +61,7 @@ theorem envMove_requestTerminate (s : EState) (k r : String) : EnvMove s (reques
   · have hp : EnvMove s (termPrep s k r) := by
       unfold termPrep; simp only []; split <;> exact ⟨rfl, rfl, id⟩
     split
-    · exact hp.trans ⟨rfl, rfl, id⟩
+    · exact ⟨rfl, rfl, id⟩
     · rename_i s' hs
       have hne : (termTarget k).1 ≠ .paused := by
         unfold termTarget
